@@ -660,15 +660,13 @@ impl<Left: Executor, Right: Executor> Executor for MergeJoin<Left, Right> {
 
     fn next(&mut self) -> RuntimeResult<Option<Row>> {
         if self.emitting_unmatched_right {
-            while self.unmatched_right_idx < self.right_matched.len() {
-                let idx = self.unmatched_right_idx;
-                self.unmatched_right_idx += 1;
-
-                if !self.right_matched[idx] && idx < self.right_buffer.len() {
-                    let row = nulls_with_right(&self.right_buffer[idx], self.left_cols());
-                    self.stats.rows_produced += 1;
-                    return Ok(Some(row));
-                }
+            // The left input is exhausted: every right row still ahead of the cursor has no partner.
+            // (The rows in `right_buffer` were buffered because a left row had their key.)
+            if let Some(right_row) = self.current_right.take() {
+                let row = nulls_with_right(&right_row, self.left_cols());
+                self.advance_right()?;
+                self.stats.rows_produced += 1;
+                return Ok(Some(row));
             }
             return Ok(None);
         }
@@ -791,6 +789,14 @@ impl<Left: Executor, Right: Executor> Executor for MergeJoin<Left, Right> {
                     self.left_matched = false;
                 }
                 Ordering::Greater => {
+                    // The right row sorts before every left row that is left (or has a NULL key):
+                    // it has no partner. RIGHT / FULL joins keep it, padded with NULLs.
+                    if matches!(self.join_type, JoinType::Right | JoinType::Full) {
+                        let row = nulls_with_right(right_row, self.left_cols());
+                        self.advance_right()?;
+                        self.stats.rows_produced += 1;
+                        return Ok(Some(row));
+                    }
                     self.advance_right()?;
                 }
                 Ordering::Equal => {
